@@ -74,14 +74,17 @@ where
             std::thread::Builder::new()
                 .name("timeout".to_owned())
                 .spawn(move || loop {
-                    let mut market = s1.market.lock();
-                    let now = SystemTime::now();
-                    if closing_time < now {
-                        log::debug!("Reached timeout, triggering shutdown");
-                        market.open = false;
-                    }
-                    if !market.open {
-                        break;
+                    {
+                        // Do not hold the lock while sleeping: the workers need it.
+                        let mut market = s1.market.lock();
+                        let now = SystemTime::now();
+                        if closing_time < now {
+                            log::debug!("Reached timeout, triggering shutdown");
+                            market.open = false;
+                        }
+                        if !market.open {
+                            break;
+                        }
                     }
                     sleep(Duration::from_secs(1));
                 })
@@ -176,6 +179,12 @@ impl<Job> JobBroker<Job> {
             market.job_batches.push(to_share);
             self.has_new_jobs.notify_one();
         }
+    }
+
+    /// See whether the market is still open, i.e. neither timed out nor closed by a worker that
+    /// stopped.
+    pub fn is_open(&self) -> bool {
+        self.market.lock().open
     }
 
     /// See whether the market is closed.
